@@ -17,7 +17,7 @@ REQUIREMENTS FOR THE CHANGE
 1. It must be a plausible programming mistake or a plausible "optimisation"/refactoring slip in the library sources under src/ (drivers/ncmpio, dispatchers, drivers/common, ...), small (a few lines), and must compile without new warnings being necessary.
 2. It must violate the property above in a way that needs something SPECIFIC to manifest: a particular interleaving of processes, a fault at a particular point, a multi-step sequence of operations, an unusual input/shape/alignment/type combination, or two cooperating sites that each look fine alone. It must NOT be something ordinary use exposes at once (the existing tests must keep passing).
 3. The existing test suite must still pass with the change: after editing, run `cd {wt} && make -j6 > /dev/null 2>&1 && make -k -j6 check > check.out 2>&1; grep -E "^(# (PASS|FAIL|ERROR)|FAIL|ERROR)" check.out` and confirm 0 FAIL / 0 ERROR in every directory (73 PASS in total across the test directories, plus 2 XFAIL). If a test fails, choose a different change.
-4. Write a demonstration: a small C program (MPI + pnetcdf API) in /tmp/{pid}-demo/demo.c plus /tmp/{pid}-demo/run.sh that builds it against the library in the worktree (`mpicc demo.c -I{wt}/src/include {wt}/src/libs/.libs/libpnetcdf.a -lm -o demo`) and runs it (use `mpirun -np N --oversubscribe` with env OMPI_ALLOW_RUN_AS_ROOT=1 OMPI_ALLOW_RUN_AS_ROOT_CONFIRM=1 OMPI_MCA_btl_vader_single_copy_mechanism=none; N<=4). run.sh must exit 0 when the property holds and non-zero (or hang -> use `timeout 60`) when it is violated. Verify BOTH: it fails with your change applied, and it passes on the unmodified tree (`git -C {wt} stash; make -j6; ./run.sh; git -C {wt} stash pop; make -j6`).
+4. Write a demonstration: a small C program (MPI + pnetcdf API) in /tmp/{pid}-demo/demo.c plus /tmp/{pid}-demo/run.sh that builds it against the library in the worktree (`mpicc demo.c -I{wt}/src/include {wt}/src/libs/.libs/libpnetcdf.a -lm -o demo`) and runs it (use `mpirun -np N --oversubscribe` with env OMPI_ALLOW_RUN_AS_ROOT=1 OMPI_ALLOW_RUN_AS_ROOT_CONFIRM=1 OMPI_MCA_btl_vader_single_copy_mechanism=none; N<=4). run.sh must exit 0 when the property holds and non-zero (or hang -> use `timeout 60`) when it is violated. Verify BOTH: it fails with your change applied, and it passes on the unmodified tree (save your diff first: `git -C {wt} diff > /tmp/{pid}-demo/patch.diff; git -C {wt} apply -R /tmp/{pid}-demo/patch.diff; make -j6; ./run.sh; git -C {wt} apply /tmp/{pid}-demo/patch.diff; make -j6` -- do NOT use `git stash`, the stash is shared between worktrees and other agents work in parallel).
 5. Leave the change applied in the worktree (uncommitted) and write the diff to /tmp/{pid}-demo/patch.diff with `git -C {wt} diff > /tmp/{pid}-demo/patch.diff`. Only files under src/ may be modified (generated .c files next to .m4 files are build products: edit the .m4, not the generated .c).
 
 Notes: some source files are generated from .m4 (e.g. src/drivers/ncmpio/ncmpio_getput.m4 -> .c by `make`). To run files with several processes use mpirun as above. The library can be asked to inject nothing; if your defect needs an I/O error to manifest, your demo may interpose MPI-IO functions through the PMPI profiling interface (define MPI_File_write_at_all etc. in demo.c and call PMPI_...).
